@@ -557,6 +557,11 @@ func ReorderTypes(module *Module) {
 	for i := range module.GlobalExpressions {
 		module.GlobalExpressions[i].Kind = remapExprTypeHandles(module.GlobalExpressions[i].Kind, remap)
 	}
+	// The recorded use order names the old handles: follow the move, or a
+	// second ReorderTypes would shuffle the arena again.
+	for i := range module.TypeUseOrder {
+		module.TypeUseOrder[i] = safeRemap(module.TypeUseOrder[i])
+	}
 	// Remap special types
 	if module.SpecialTypes.RayIntersection != nil {
 		h := remap[*module.SpecialTypes.RayIntersection]
